@@ -60,6 +60,8 @@ def generate(seed, tier):
                 ops[-1].update({'disk_full': True, 'interrupt_at': None, 'rounds': rng.randint(2, 3)})
         elif x < 0.985:
             ops.append({'op': 'first_start', 'keys': rng.randint(2, 5)})
+        elif x < 0.993:
+            ops.append({'op': 'start_with_read_fault', 'errno': rng.choice([5, 13, 24, 4, 116])})
         else:
             ops.append({'op': 'balance'})
     ops.append({'op': 'save'})
@@ -580,6 +582,44 @@ def execute(script):
                 last_handout = None
                 res.distinct.add('receive_script:%d' % nb)
                 trace.add('receive_script', nb)
+            elif kind == 'start_with_read_fault':
+                # a start of a script on which reading the existing wallet fails once (a transient I/O error): whatever that
+                # start does, the wallet on disk stays what it was, and the next start loads it
+                if not fs.isfile('wallet.json'):
+                    continue
+                before = fs.files['wallet.json']
+                real_wallet_cls = utils_mod.Wallet
+
+                class SmallWallet2(real_wallet_cls):
+                    def generate_keys(self, n):
+                        return real_wallet_cls.generate_keys(self, min(n, 3))
+                utils_mod.Wallet = SmallWallet2
+                fs.read_fault = ('wallet.json', op.get('errno', 5))
+                try:
+                    with env.quiet():
+                        open_or_init_wallet()
+                    res.bump('probe:start_survived_a_read_fault')
+                except OSError:
+                    res.bump('probe:start_failed_on_a_read_fault')
+                except Exception as e:
+                    res.bump('start_failed_otherwise:%s' % type(e).__name__)
+                finally:
+                    utils_mod.Wallet = real_wallet_cls
+                    fs.read_fault = None
+                res.bump('fault:read_fault_at_start')
+                if fs.files.get('wallet.json') != before:
+                    res.violate(PROP, 'C15/wallet-file-changed-by-a-failed-start', 'a start on which reading wallet.json failed once (errno %d) '
+                                'left a different wallet.json behind (%d bytes before, %s after)' % (
+                                    op.get('errno', 5), len(before), len(fs.files.get('wallet.json') or b'')))
+                    break
+                try:
+                    w_again = open_or_init_wallet()
+                except Exception as e:
+                    res.violate(PROP, 'C15/reload-fails-after-crash', 'the start after a read fault raises %s' % type(e).__name__)
+                    break
+                if not _same(_wallet_tuple(w_again), _parse(before)):
+                    res.violate(PROP, 'C15/load-differs-from-file', 'the start after a read fault loads another wallet')
+                    break
             elif kind == 'first_start':
                 # the very first start of a script in an empty directory creates the wallet: a crash at any boundary leaves either
                 # no wallet.json or the complete one, and the next start goes on from there
